@@ -466,6 +466,38 @@ func ruleProvContent(c *Ctx, r *Rep) {
 			continue
 		}
 		fk := c.FuncKey(fn)
+		// names that travel as values of a string type of the certificate package (general names of kind mail, dns,
+		// uri): the text wrapped is the text written
+		nName := 0
+		for _, b := range fn.Blocks {
+			for _, ins := range b.Instrs {
+				mi, ok := ins.(*ssa.MakeInterface)
+				if !ok {
+					continue
+				}
+				nt, ok := mi.X.Type().(*types.Named)
+				if !ok || !c.IsModObj(nt.Obj()) || !isStringish(nt) || strings.HasSuffix(nt.Obj().Pkg().Path(), "config/v1") {
+					continue
+				}
+				if _, isErr := mi.Type().Underlying().(*types.Interface); !isErr || isErrorType(mi.Type()) {
+					continue
+				}
+				nName++
+				var rew []string
+				for _, x := range pv.Origins(mi.X) {
+					rew = append(rew, rewritingCalls(c, pv, x, 0, map[string]bool{})...)
+				}
+				rew = uniq(rew)
+				pos := mi.Pos()
+				if pos == token.NoPos {
+					pos = mi.X.Pos()
+				}
+				if pos == token.NoPos {
+					pos = fn.Pos()
+				}
+				r.Check(len(rew) == 0, sprintf("text-as-written|%s|%s#%d", nt.Obj().Name(), fk, nName), c.Pos(pos), "only text-preserving operations between the YAML string and the name handed to the certificate", strings.Join(rew, ", "))
+			}
+		}
 		for _, b := range fn.Blocks {
 			for _, ins := range b.Instrs {
 				st, ok := ins.(*ssa.Store)
